@@ -50,6 +50,10 @@ CONTACT_STATE_NAME = ("penetrating", "touching", "within-margin")
 JNT_MARGIN, TEN_MARGIN = 0.05, 0.03
 LIMIT_OFF = (-0.02, 0.5, 1.0)                # violated (abs), inside margin (fraction of margin), inactive (abs)
 LIMIT_STATE_NAME = ("violated", "inside-margin", "inactive")
+# optional 'idle' level (state_space(idle=True); used by C09): cs == IDLE -> every contact separated beyond its margin
+# (no contact generated), ls == IDLE -> every limit inactive.  A mix without E / F then has no constraint row at all.
+IDLE = 3
+CONTACT_IDLE_DIST = 0.05                      # > CONTACT_MARGIN
 R_MOV, R_PAD = 0.05, 0.04                    # sphere radii
 
 PAIR_FRICTION = {
@@ -260,11 +264,19 @@ class Host:
         o.enableflags = self.opt0[1] | enable
 
     # -------------------------------------------------------------- states
-    def state_space(self, nq=2, nvel=3):
-        """(qi, vi, cs, ls): configuration x velocity pattern x contact-state rotation x limit-state rotation."""
+    def state_space(self, nq=2, nvel=3, idle=False):
+        """(qi, vi, cs, ls): configuration x velocity pattern x contact-state rotation x limit-state rotation.
+        idle=True appends, after the rotations of every (qi, vi), the one state in which every contact is separated beyond
+        its margin and every limit is inactive (cs / ls == IDLE where the host has contacts / limits)."""
         ncs = 3 if self.contacts else 1
         nls = 3 if self.nlimit else 1
-        return [(qi, vi, cs, ls) for qi in range(nq) for vi in range(nvel) for cs in range(ncs) for ls in range(nls)]
+        out = []
+        for qi in range(nq):
+            for vi in range(nvel):
+                out += [(qi, vi, cs, ls) for cs in range(ncs) for ls in range(nls)]
+                if idle and (self.contacts or self.nlimit):
+                    out.append((qi, vi, IDLE if self.contacts else 0, IDLE if self.nlimit else 0))
+        return out
 
     def apply_state(self, st):
         """Write the lattice state into (m, d).  Returns dict(dist={atom: intended distance}, limit=[...])."""
@@ -292,7 +304,7 @@ class Host:
         want = {}
         # --- contact with a free body as partner: move the free body
         for ci, (atom, mov, oth, kind, fb) in enumerate(self.contacts):
-            dist = CONTACT_DIST[(cs + ci) % 3]
+            dist = CONTACT_IDLE_DIST if cs == IDLE else CONTACT_DIST[(cs + ci) % 3]
             want[atom] = dist
             if kind != "body":
                 continue
@@ -318,7 +330,7 @@ class Host:
         li = 0
         m.jnt_range[:] = self.jnt_range0
         for j in self.limited_jnts:
-            s = (ls + li) % 3
+            s = 2 if ls == IDLE else (ls + li) % 3
             t, a = int(m.jnt_type[j]), int(m.jnt_qposadr[j])
             off = LIMIT_OFF[s] * (JNT_MARGIN if s == 1 else 1.0)
             if t == 1:
@@ -332,7 +344,7 @@ class Host:
             lim.append(("jnt%d" % j, s))
             li += 1
         if self.has_tendon_limit:
-            s = (ls + li) % 3
+            s = 2 if ls == IDLE else (ls + li) % 3
             lib.mj_comPos(m, d)
             lib.mj_tendon(m, d)
             L = float(d.ten_length[0])
@@ -367,6 +379,10 @@ class Host:
         con = self.d.contact
         for atom, dist in info["dist"].items():
             i = idx[atom]
+            if dist > CONTACT_MARGIN:
+                if i >= 0:
+                    return "contact %s generated although separated beyond the margin" % atom
+                continue
             if i < 0:
                 return "contact %s not generated" % atom
             if abs(float(con[i]["dist"]) - dist) > tol:
